@@ -43,6 +43,7 @@ ASSUMPTIONS = [
 REPORT_COUNTERS = ["cases", "crash_points_enumerated", "faults_raised", "scn_first_call", "scn_rebuild", "scn_cache_miss",
                    "scn_next_chain", "scn_invalid_method", "scn_hook_raises", "scn_recursion", "probe_vectors_compared",
                    "invalid_method_positions", "invalid_method_via_linkback_parent", "invalid_method_swapped_for_valid", "invalid_method_after_first_build", "recursion_faults", "hook_faults", "post_fault_behaviours",
+                   "rebuild_faults_probed_through_linked_copy", "invalid_method_after_first_build_of_linked_copy",
                    "suspended_method_histories", "suspended_method_two_failed_builds", "recursive_calls_of_suspended_method_checked"]
 
 SCENARIOS = ["first_call", "rebuild", "cache_miss", "next_chain", "invalid_method", "hook_raises", "recursion"]
@@ -170,7 +171,17 @@ def _setup(spec, env, scn):
     else:  # rebuild
         prog.call(c0)
         fn = prog.make(spec["late"])
-        op = lambda: prog.ov.register(fn, priority=spec["late"].get("prio", 0))  # noqa: E731
+        parent = prog.ov
+        if spec.get("offset", 0) % 2:
+            # the function has a linked copy that is in use as well; the later probes go to the *copy*, which must
+            # not be left behind when the rebuild of its parent is cut short
+            prog.linked_child = parent.copy(linkback=True)
+            a = prog.args(c0)
+            try:
+                prog.linked_child(*a[0])
+            except Exception:  # noqa: BLE001
+                pass
+        op = lambda: parent.register(fn, priority=spec["late"].get("prio", 0))  # noqa: E731
     return prog, op
 
 
@@ -209,11 +220,24 @@ def _injected(spec, env, res, ref, behaviours):
         res.count("faults_raised")
         res.nontrivial([scn, list(st[1])])
         if scn == "rebuild":
+            if getattr(prog, "linked_child", None) is not None:
+                # the parent is asked first (a fresh call rebuilds it), then the probes go to the linked copy
+                a = prog.args(spec["op_calls"][0])
+                try:
+                    prog.fn(*a[0])
+                except Exception:  # noqa: BLE001
+                    pass
+                late_in = any(f is prog.fns.get(spec["late"]["mid"]) for f in prog.ov.defns.values())
+                prog.ov = prog.linked_child
+                res.count("rebuild_faults_probed_through_linked_copy")
             prog.bind()
         got = _probe(prog, spec["probes"])
         res.count("probe_vectors_compared")
         behaviours.add(repr(got))
         ok = got == ref or (ref_new is not None and got == ref_new)
+        if ok and scn == "rebuild" and getattr(prog, "linked_child", None) is not None:
+            # ... and the copy agrees with its parent about whether the new method is there
+            ok = got == (ref_new if late_in else ref) or ref == ref_new
         if not ok:
             res.violation("post-fault-probes-vs-complete-set", [scn, st[1][0], st[1][1]], spec,
                           observed={"crash_point": [n, *st[1]], "probes": _diff(got, ref, spec["probes"])},
@@ -265,7 +289,8 @@ def _invalid(spec, env, res, ref, behaviours):
     for p in range(len(methods) + 1):
         # every other position: the methods (and the invalid one) live on a parent and the function under test is a
         # linkback copy of it - the offending method is then removed through the parent
-        linkback = p % 2 == 1
+        linkback = p % 2 == 1 or (p == len(methods) and spec.get("offset", 0) % 2 == 0)
+        pre_child = None
         # every third position: one valid method is only registered by the repair itself (offender out, that method
         # in, before the next call) - the number of registered methods is then the same before and after the repair
         swap = p % 3 == 2 and len(methods) >= 2
@@ -286,6 +311,17 @@ def _invalid(spec, env, res, ref, behaviours):
                     prog.bind()
                     _probe(prog, spec["probes"][:2])
                     res.count("invalid_method_after_first_build")
+                    if linkback:
+                        # ... and so is its linked copy: the offender reaches it through a parent whose own
+                        # re-build fails
+                        pre_child = prog.ov.copy(linkback=True)
+                        par_ = prog.ov
+                        prog.ov = pre_child
+                        prog.bind()
+                        _probe(prog, spec["probes"][:2])
+                        prog.ov = par_
+                        prog.bind()
+                        res.count("invalid_method_after_first_build_of_linked_copy")
                 except Exception:  # noqa: BLE001
                     pass
                 try:
@@ -298,7 +334,7 @@ def _invalid(spec, env, res, ref, behaviours):
             continue
         parent = prog.ov
         if linkback:
-            prog.ov = parent.copy(linkback=True)
+            prog.ov = pre_child if pre_child is not None else parent.copy(linkback=True)
             res.count("invalid_method_via_linkback_parent")
         prog.bind()
         res.ev()
